@@ -270,10 +270,16 @@ func goTypedRoundTrip(v vu.Val, t vu.Type) (back vu.Val, err error) {
 }
 
 func consDetail(cs []string) string {
-	if len(cs) == 0 {
+	var keep []string
+	for _, c := range cs {
+		if c != cTypedAny { // shows as a panic with its own signature, not as a detail
+			keep = append(keep, c)
+		}
+	}
+	if len(keep) == 0 {
 		return "plain"
 	}
-	return strings.Join(cs, "+")
+	return strings.Join(keep, "+")
 }
 
 // libView is the abstract value the library really holds after construction (the VM library
